@@ -62,7 +62,11 @@ CLAIMS['C04'] = dict(
           "kernel-decided and replayed on the real code, listed as known finding). Differential run of from_slice / "
           "try_from_slice on truncations, tag and byte corruptions, 0xFFFFFFFF windows, swapped/duplicated entries and "
           "random strings in both modes, with re-encode oracles (strict: accepted bytes re-encode to themselves). "
-          "Partial: the converse (accepted => well-formed encoding) is carried by the oracle, not yet by a theorem."),
+          "Converse, proved by induction over the universe (reverse_all): C04_deserialize_reencodes / C04_accepted_reencodes "
+          "(strict mode: every accepted byte string is the encoding of the well-typed value returned), "
+          "C04_accepts_iff_valid (accepted iff it is the encoding of some value), C04_strict_bijection, "
+          "C04_decode_injective - for every well-formed type without index collections (F6) and init hooks. "
+          "Partial: lax-mode characterisation of the extra inputs is carried by the oracle and the two set lemmas."),
     technique="Lean 4 proof (acceptance/rejection lemmas over the universe, kernel-decided counterexample) + differential check with re-encode oracle",
     design_ref="§5 C04")
 
@@ -74,8 +78,11 @@ CLAIMS['C03'] = dict(
           "one logical value (same value seed, different insertion order / reserve / shrink / rotation / hasher state; "
           "three BuildHashers incl. an all-collide one) are encoded; the observed iteration order is given to the "
           "model, which sorts itself; oracle: identical bytes, repeated serialization identical, seven wrappers "
-          "identical. Partial: permutation-invariance of the hash-set/map sort is tied by the differential run and "
-          "the sort model, not yet by a theorem (needs the order laws on key values)."),
+          "identical; c03_fastpath: for every length 0..=300 and the strategy boundaries the bulk write of "
+          "Vec<u8>/[u8]/Box/Cow/Rc/String/str equals the element loop and VecDeque/LinkedList/Vec<i8> of the same "
+          "bytes. C03_hashSet_order_irrelevant / C03_hashMap_order_irrelevant / C03_hashSet_eq_btreeSet: the bytes of "
+          "a hash collection do not depend on iteration order (sort of distinct keys is unique: sa_unique, from the "
+          "total-order laws of Val.cmp)."),
     technique="Lean 4 proof (wrapper/fast-path/deque lemmas via the spec refinement) + differential check over representation pairs",
     design_ref="§5 C03")
 
@@ -87,8 +94,10 @@ CLAIMS['C08'] = dict(
           "C08_struct_fields_skip, C08_closed_examples (closedness and self-validation, kernel-evaluated on nested "
           "types). Tie: for every catalogue type with a schema the *bytes of the real container* are compared with "
           "the bytes of schemaOf(type description), so declarations, definitions, field/variant names, tag values "
-          "and widths are all compared; oracle: no missing definition, container round-trips. Partial: the general "
-          "closedness/describes theorems (induction over the universe) are not proved yet."),
+          "and widths are all compared (BorshSchemaContainer, Definition and Fields themselves included); oracles: no "
+          "missing definition, container round-trips, and a reader that knows only the schema parses every real "
+          "encoding of every schema-catalogue type exactly to its end. Partial: the general closedness/describes "
+          "theorems (induction over the universe) are not proved yet."),
     technique="Lean 4 model of schema generation with kernel-checked lemmas + byte-exact differential check of containers",
     design_ref="§5 C08")
 CLAIMS['C09'] = dict(
